@@ -97,6 +97,7 @@ inductive Op (α : Type) where
   | next                    -- next(f)
   | list                    -- list(f): asks len(f) as a length hint, then iterates to the end
   | drain                   -- [x for x in f]: iterates to the end
+  | rollover                -- f.rollover() (also what fileno() does first)
 deriving Repr
 
 inductive Out (α : Type) where
@@ -181,6 +182,7 @@ def SBytes.step (s : SBytes) : Op Byte → Out Byte × SBytes
               (SBytes.drain (s.buf.data.length + 2) s.len.2 []).2)
   | .drain => (.lines (SBytes.drain (s.buf.data.length + 2) s []).1,
                (SBytes.drain (s.buf.data.length + 2) s []).2)
+  | .rollover => (.unit, s.rollover)
 
 def SBytes.run (s : SBytes) : List (Op Byte) → List (Out Byte) × SBytes
   | [] => ([], s)
@@ -376,17 +378,6 @@ def SStr.read (s : SStr) (n : Option Nat) : List Char × SStr :=
    { s with st := (s.rd.read s.st n).2.1, rd := (s.rd.read s.st n).2.2,
             tell := s.tell + (s.rd.read s.st n).1.length })
 
-/-- `rollover`: new EncodedFile over a temporary file, content copied, raw position restored -/
-def SStr.rollover (s : SStr) : SStr :=
-  if s.rolled then s
-  else { s with st := ((File.empty : File CU).write s.st.data).seek s.st.pos,
-                rd := Reader.reset, rolled := true }
-
-def SStr.write (s : SStr) (cs : List Char) : SStr :=
-  if s.st.pos + (encode cs).length ≥ s.maxSize then
-    { s.rollover with st := s.rollover.st.write (encode cs), tell := s.tell + cs.length }
-  else { s with st := s.st.write (encode cs), tell := s.tell + cs.length }
-
 /-- `_traverse_codepoints(cur, dest - cur)` -/
 def SStr.traverse : Nat → SStr → Nat → Nat → SStr
   | 0, s, _, _ => s
@@ -399,6 +390,17 @@ def SStr.traverse : Nat → SStr → Nat → Nat → SStr
 /-- `seek(p)` (os.SEEK_SET) -/
 def SStr.seek (s : SStr) (p : Nat) : SStr :=
   { SStr.traverse (p + 1) (s.bseek 0) 0 p with tell := p }
+
+/-- `rollover` (after the fix): a new EncodedFile (fresh codec reader) over a temporary file gets the
+    content; the position is re-established by a code-point seek to `_tell` -/
+def SStr.rollover (s : SStr) : SStr :=
+  if s.rolled then s
+  else SStr.seek { s with st := (File.empty : File CU).write s.st.data, rd := Reader.reset, rolled := true } s.tell
+
+def SStr.write (s : SStr) (cs : List Char) : SStr :=
+  if s.st.pos + (encode cs).length ≥ s.maxSize then
+    { s.rollover with st := s.rollover.st.write (encode cs), tell := s.tell + cs.length }
+  else { s with st := s.st.write (encode cs), tell := s.tell + cs.length }
 
 /-- `seek(n, os.SEEK_CUR)` -/
 def SStr.seekCur (s : SStr) (n : Nat) : SStr :=
@@ -467,6 +469,7 @@ def SStr.step (s : SStr) : Op Char → Out Char × SStr
               (SStr.drain (s.st.data.length + 2) s.len.2 []).2)
   | .drain => (.lines (SStr.drain (s.st.data.length + 2) s []).1,
                (SStr.drain (s.st.data.length + 2) s []).2)
+  | .rollover => (.unit, s.rollover)
 
 def SStr.run (s : SStr) : List (Op Char) → List (Out Char) × SStr
   | [] => ([], s)
@@ -509,6 +512,7 @@ def Spec.step [Inhabited α] (sem : LineSem α) (f : File α) : Op α → Out α
   | .next => Spec.next sem f
   | .list => (.lines (sem.iter f.rest), ⟨f.data, f.pos + f.rest.length⟩)
   | .drain => (.lines (sem.iter f.rest), ⟨f.data, f.pos + f.rest.length⟩)
+  | .rollover => (.unit, f)
 
 def Spec.run [Inhabited α] (sem : LineSem α) (f : File α) : List (Op α) → List (Out α) × File α
   | [] => ([], f)
